@@ -50,9 +50,9 @@ EXTENDS Integers, Sequences, FiniteSets, TLC
 CONSTANTS MaxDepth,      \* TLCGet("level") bound: level N = chains of N-1 constructs
           MaxLen,        \* sequences longer than this are terminal
           InitLen,       \* initial sequences have length 0..InitLen
-          UniverseName,  \* "u2" | "u3" | "u3n" | "u4" | "u7" | "u9" | "ux"
+          UniverseName,  \* "u2" | "u3" | "u3n" | "un" | "uf" | "u4" | "u7" | "u9" | "ux"
           GridName,      \* "small" | "full"
-          Groups         \* subset of {"pos", "range", "iter", "agg", "cat", "focus"}
+          Groups         \* subset of {"pos", "range", "iter", "agg", "cat", "focus", "nodes"}
 
 VARIABLE st
 vars == <<st>>
@@ -87,6 +87,8 @@ Special(t, k) == Item(t, k, <<0, 1>>, <<>>)
 DblNaN      == Special("dbl", "nan")
 Str(s)      == Item("str", "fin", <<0, 1>>, s)
 Bool(b)     == Item("bool", "fin", <<IF b THEN 1 ELSE 0, 1>>, <<>>)
+(* nodes of the fixed document <r><n k="x">5</n><n k="y">6</n><n k="z">7</n></r>, numbered in DOCUMENT
+   ORDER: 1 = r, 2 = n[1], 3 = n[1]/@k, 4 = n[2], 5 = n[2]/@k, 6 = n[3], 7 = n[3]/@k *)
 Node(i)     == Item("node", "fin", <<i, 1>>, <<>>)
 
 NumTypes  == {"int", "dec", "flt", "dbl"}
@@ -566,11 +568,42 @@ ExQuantFocus(S, q, F, thr) ==
   IN QuantRes(q, [i \in 1..Len(S) |-> c])
 
 ---------------------------------------------------------------------------
+(* group "nodes": sequences of NODES.  The simple map operator and `for` concatenate in the order of the
+   left operand and keep duplicates; only the path operator returns document order without duplicates. *)
+IsNode(x)   == x.t = "node"
+AllNodes(S) == \A i \in 1..Len(S) : IsNode(S[i])
+IsElemN(d)  == d \in {2, 4, 6}
+IsAttr(d)   == d \in {3, 5, 7}
+(* parent::node() (the document node above r is not an item here: the step from r selects nothing) *)
+ParentOf(d) == IF d = 1 THEN <<>> ELSE IF IsAttr(d) THEN <<Node(d - 1)>> ELSE <<Node(1)>>
+AttrOf(d)   == IF IsElemN(d) THEN <<Node(d + 1)>> ELSE <<>>                      \* @k
+ChildN(d)   == IF d = 1 THEN <<Node(2), Node(4), Node(6)>> ELSE <<>>             \* child::n
+NodeBodies  == {".", "(., .)", "..", "@k", "../n"}
+NodeBody(b, x) ==
+  CASE b = "."      -> <<x>>
+    [] b = "(., .)" -> <<x, x>>
+    [] b = ".."     -> ParentOf(x.q[1])
+    [] b = "@k"     -> AttrOf(x.q[1])
+    [] b = "../n"   -> LET p == ParentOf(x.q[1]) IN IF p = <<>> THEN <<>> ELSE ChildN(p[1].q[1])
+(* S ! BODY  and  for $x in S return $x ! BODY: concatenation, nothing else *)
+ExNodeMap(S, b) == OK(Concat([i \in 1..Len(S) |-> NodeBody(b, S[i])]))
+(* document order without duplicates *)
+RECURSIVE SortIds(_)
+SortIds(ids) == IF ids = {} THEN <<>>
+                ELSE LET m == CHOOSE x \in ids : \A y \in ids : x <= y IN <<Node(m)>> \o SortIds(ids \ {m})
+DocOrder(R) == SortIds({R[i].q[1] : i \in 1..Len(R)})
+(* S / BODY *)
+ExNodePath(S, b) == OK(DocOrder(ExNodeMap(S, b).s))
+
+---------------------------------------------------------------------------
 (* universes of items *)
 Sa == Str(<<97>>)
 U2 == {IntV(1), Sa}
 U3 == {IntV(1), Sa, DblNaN}
-U3n == {Node(1), Node(2), Sa}
+U3n == {Node(2), Node(4), Sa}
+Un  == {Node(2), Node(4), Node(5)}              \* two sibling elements and an attribute: all-node sequences
+(* values that are FALSY in the host language: 0, 0.0, '', false() (and 1, -1 so that sum/avg/min/max reach 0) *)
+Uf  == {IntV(0), Dec(0, 1), Str(<<>>), Bool(FALSE), IntV(1), IntV(-1)}
 U4 == {IntV(1), IntV(2), Dec(5, 2), Sa}
 U7 == {IntV(1), IntV(2), IntV(3), Dec(5, 2), Dbl(1, 1), DblNaN, Sa}
 U9 == U7 \cup {Flt(3, 2), Bool(TRUE)}
@@ -580,11 +613,12 @@ U9 == U7 \cup {Flt(3, 2), Bool(TRUE)}
    F&O comparison as long as q has few digits (rounding is injective and monotone there).  Arithmetic on
    such values is inexact: MkFin marks the result ap (compared approximately, terminal). *)
 UX == {IntV(1), Dec(1, 1), Flt(1, 1), Dbl(1, 1), Dec(1, 10), Dbl(1, 10), Dec(3, 10), Dbl(3, 10)}
-Universe == CASE UniverseName = "u2" -> U2 [] UniverseName = "u3" -> U3 [] UniverseName = "u3n" -> U3n [] UniverseName = "u4" -> U4
+Universe == CASE UniverseName = "u2" -> U2 [] UniverseName = "u3" -> U3 [] UniverseName = "u3n" -> U3n [] UniverseName = "un" -> Un
+              [] UniverseName = "uf" -> Uf [] UniverseName = "u4" -> U4
               [] UniverseName = "u7" -> U7 [] UniverseName = "u9" -> U9 [] UniverseName = "ux" -> UX
 
 (* atomization of nodes is not modelled: node universes only with the type-agnostic groups *)
-ASSUME UniverseName = "u3n" => Groups \subseteq {"pos", "range", "cat"}
+ASSUME UniverseName \in {"u3n", "un"} => Groups \subseteq {"pos", "range", "cat", "nodes"}
 
 (* a state can be used as an operand: a sequence, not too long, exact, small numbers *)
 Usable == /\ st.k = "seq"
@@ -654,6 +688,11 @@ ForFocus(F, inner, R)     == On("focus") /\ st' = ExForFocus(S, F, inner, R)
 PredFocus(F, inner, R, k) == On("focus") /\ st' = ExPredFocus(S, F, inner, R, Tok(k, N))
 QuantFocus(q, F, thr)     == On("focus") /\ st' = ExQuantFocus(S, q, F, Tok(thr, N))
 
+(* ---- group "nodes": ! and for keep order and duplicates of node sequences, / sorts and deduplicates ---- *)
+NodeMap(b)  == On("nodes") /\ (b \in {".", "(., .)"} \/ AllNodes(S)) /\ st' = ExNodeMap(S, b)
+NodeFor(b)  == On("nodes") /\ AllNodes(S) /\ st' = ExNodeMap(S, b)        \* for $x in S return $x/BODY
+NodePath(b) == On("nodes") /\ AllNodes(S) /\ st' = ExNodePath(S, b)
+
 Next ==
   \/ \E a \in PredToks : PredNum(a)
   \/ \E op \in PosOps, k \in KToks : PredPos(op, k)
@@ -687,6 +726,9 @@ Next ==
   \/ \E sep \in Seps : StringJoinAny(sep)
   \/ StringJoinTypeErr
   \/ \E side \in {"after", "before"}, T \in CatSeqs : Comma(side, T)
+  \/ \E b \in NodeBodies : NodeMap(b)
+  \/ \E b \in {".", "..", "@k", "../n"} : NodeFor(b)
+  \/ \E b \in {".", "..", "@k", "../n"} : NodePath(b)
   \/ \E F \in Consumers, inner \in Inners, R \in Readers : MapFocus(F, inner, R)
   \/ \E F \in Consumers, inner \in Inners, R \in Readers : ForFocus(F, inner, R)
   \/ \E F \in Consumers, inner \in {"[. gt 4]", "! (. + 1)"}, R \in Readers, k \in {"1", "2"} : PredFocus(F, inner, R, k)
@@ -812,12 +854,23 @@ LawFocus ==
   /\ \A F \in {"exists", "empty", "head", "count", "some", "geq"}, thr \in {<<IntV(2)>>, <<IntV(3)>>, <<IntV(4)>>} :
         /\ (N > 0 => ExQuantFocus(S, "every", F, thr) = ExQuantFocus(S, "some", F, thr))   \* the clause does not depend on the binding
         /\ (N = 0 => (ExQuantFocus(S, "every", F, thr) = OK(<<Bool(TRUE)>>) /\ ExQuantFocus(S, "some", F, thr) = OK(<<Bool(FALSE)>>)))
+(* E1 ! E2 keeps order and duplicates; E1 / E2 is the same set in document order *)
+LawNodes ==
+  AllNodes(S) => \A b \in {".", "..", "@k", "../n"} :
+     LET m == ExNodeMap(S, b).s
+         p == ExNodePath(S, b).s IN
+       /\ {m[i] : i \in 1..Len(m)} = {p[i] : i \in 1..Len(p)}
+       /\ \A i \in 1..(Len(p) - 1) : p[i].q[1] < p[i + 1].q[1]
+       /\ Len(p) <= Len(m)
+       /\ ((\A i \in 1..(Len(m) - 1) : m[i].q[1] < m[i + 1].q[1]) => p = m)
+       /\ ExNodeMap(S, ".") = OK(S) /\ Len(ExNodeMap(S, "(., .)").s) = 2 * N
 NoNodesDep == LawDep
 NoNodes == \A i \in 1..N : S[i].t # "node"
 (* decided on every sequence that is the SOURCE of a transition (the last level is not expanded) *)
 Laws == (Usable /\ TLCGet("level") < MaxDepth) =>
                   /\ LawSubseq /\ LawReverse /\ LawInsert /\ LawRemove /\ LawHeadTail /\ LawCardinality /\ LawFilter
                   /\ ("iter" \in Groups => NoNodesDep)
+                  /\ ("nodes" \in Groups => LawNodes)
                   /\ ("focus" \in Groups => LawFocus)
                   /\ (NoNodes => LawQuantDual /\ LawSum /\ LawMinMax /\ LawIndexOf)   \* the laws about VALUES
 =============================================================================
